@@ -204,6 +204,8 @@ func VerifMain(args []string) int {
 		runFieldStreams(out, r, *n)
 	case "bind":
 		runBindStreams(out, r, *n)
+	case "access":
+		runAccessStreams(out, r, *n)
 	case "rename":
 		runRenameStreams(out, *src)
 	case "names":
